@@ -7,8 +7,9 @@
 //          to_string with default and custom characters, == with itself and with a bitset that was freshly built
 //          bit by bit from the oracle's value — the latter two are how dirty padding would show).
 //
-// One source, one translation unit per width (registry passes -DC17_WIDTH=N); each TU covers etl::bitset<N> and
-// basic_bitset<N,W> for W in {uint8_t, uint16_t, uint32_t, uint64_t}.  g++ only (clang 14 cannot parse bitset.hpp).
+// One source, five translation units (registry passes -DC17_WIDTHS=a,b,c: the widths of that unit); every width
+// covers etl::bitset<N> and basic_bitset<N,W> for W in {uint8_t, uint16_t, uint32_t, uint64_t}.
+// g++ only (clang 14 cannot parse bitset.hpp).
 //
 // Not part of the check on this tree: basic_bitset has no test()/set(pos)/reset(pos)/flip(pos) (the unchecked_* members
 // are used instead), no operator~, no string constructors and no to_string/to_ulong/to_ullong; etl::bitset::to_ulong /
@@ -25,17 +26,14 @@
 #include <cstdarg>
 #include <string>
 
-#ifndef C17_WIDTH
-    #define C17_WIDTH 9
+#ifndef C17_WIDTHS
+    #define C17_WIDTHS 9
 #endif
 
 namespace {
 
 using vf::OpsCase;
 using vf::RawOp;
-
-constexpr std::size_t N = C17_WIDTH;
-using Ref               = std::bitset<N>;
 
 __attribute__((noinline, format(printf, 1, 2))) auto fmt(char const* f, ...) -> std::string
 {
@@ -55,27 +53,6 @@ auto splitmix(std::uint64_t z) -> std::uint64_t
     return z ^ (z >> 31);
 }
 
-// ------------------------------------------------------------------ uniform access to the two etl types
-struct AdBitset {
-    using T                                = etl::bitset<N>;
-    static constexpr bool full_api         = true;
-    static constexpr std::size_t word_bits = sizeof(etl::size_t) * 8;
-    static auto set(T& t, std::size_t i, bool v) -> T& { return t.set(i, v); }
-    static auto reset(T& t, std::size_t i) -> T& { return t.reset(i); }
-    static auto flip(T& t, std::size_t i) -> T& { return t.flip(i); }
-    static auto test(T const& t, std::size_t i) -> bool { return t.test(i); }
-};
-template <typename W>
-struct AdBasic {
-    using T                                = etl::basic_bitset<N, W>;
-    static constexpr bool full_api         = false;
-    static constexpr std::size_t word_bits = sizeof(W) * 8;
-    static auto set(T& t, std::size_t i, bool v) -> T& { return t.unchecked_set(i, v); }
-    static auto reset(T& t, std::size_t i) -> T& { return t.unchecked_reset(i); }
-    static auto flip(T& t, std::size_t i) -> T& { return t.unchecked_flip(i); }
-    static auto test(T const& t, std::size_t i) -> bool { return t.unchecked_test(i); }
-};
-
 // ------------------------------------------------------------------ observations (POD) and their judgement (no templates)
 struct Bits {
     std::uint64_t w[3]{0, 0, 0};
@@ -86,13 +63,14 @@ struct Bits {
     [[nodiscard]] auto get(std::size_t i) const -> bool { return ((w[i / 64] >> (i % 64)) & 1U) != 0; }
     auto operator==(Bits const& o) const -> bool { return w[0] == o.w[0] && w[1] == o.w[1] && w[2] == o.w[2]; }
 };
-auto show_bits(Bits const& b) -> std::string // most significant bit first, like to_string
+auto show_bits(Bits const& b, std::size_t n) -> std::string // most significant bit first, like to_string
 {
     std::string s;
-    for (std::size_t i = N; i > 0; --i) { s += b.get(i - 1) ? '1' : '0'; }
+    for (std::size_t i = n; i > 0; --i) { s += b.get(i - 1) ? '1' : '0'; }
     return s;
 }
 struct Snap {
+    std::size_t n{0};
     bool full{false};
     Bits by_test, by_index, by_proxy;
     std::size_t count{0}, size{0};
@@ -105,44 +83,20 @@ struct Snap {
     std::string str, str_custom, str_roomy;
 };
 
-auto snap_ref(Ref const& m, bool full) -> Snap
-{
-    Snap s;
-    s.full = full;
-    for (std::size_t i = 0; i < N; ++i) { s.by_test.put(i, m.test(i)); }
-    s.count = m.count();
-    if (!full) { return s; }
-    s.by_index = s.by_test;
-    s.by_proxy = s.by_test;
-    s.size     = m.size();
-    s.all      = m.all();
-    s.any      = m.any();
-    s.none     = m.none();
-    if constexpr (N <= 64) {
-        s.has_conv = true;
-        s.ul       = m.to_ulong();
-        s.ull      = m.to_ullong();
-    }
-    s.has_str    = true;
-    s.str        = m.to_string();
-    s.str_custom = m.to_string('.', '#');
-    s.str_roomy  = s.str;
-    return s;
-}
-
 auto judge(char const* name, Snap const& e, Snap const& r) -> std::string
 {
-    if (!(e.by_test == r.by_test)) { return fmt("%s: bits by test() are %s, std::bitset has %s", name, show_bits(e.by_test).c_str(), show_bits(r.by_test).c_str()); }
-    if (e.count != r.count) { return fmt("%s: count() is %zu, std::bitset says %zu (value %s)", name, e.count, r.count, show_bits(r.by_test).c_str()); }
+    auto const n = r.n;
+    if (!(e.by_test == r.by_test)) { return fmt("%s: bits by test() are %s, std::bitset has %s", name, show_bits(e.by_test, n).c_str(), show_bits(r.by_test, n).c_str()); }
+    if (e.count != r.count) { return fmt("%s: count() is %zu, std::bitset says %zu (value %s)", name, e.count, r.count, show_bits(r.by_test, n).c_str()); }
     if (!r.full) { return ""; }
-    if (!(e.by_index == r.by_test)) { return fmt("%s: bits by operator[] const are %s, std::bitset has %s", name, show_bits(e.by_index).c_str(), show_bits(r.by_test).c_str()); }
-    if (!(e.by_proxy == r.by_test)) { return fmt("%s: bits by proxy reference are %s, std::bitset has %s", name, show_bits(e.by_proxy).c_str(), show_bits(r.by_test).c_str()); }
+    if (!(e.by_index == r.by_test)) { return fmt("%s: bits by operator[] const are %s, std::bitset has %s", name, show_bits(e.by_index, n).c_str(), show_bits(r.by_test, n).c_str()); }
+    if (!(e.by_proxy == r.by_test)) { return fmt("%s: bits by proxy reference are %s, std::bitset has %s", name, show_bits(e.by_proxy, n).c_str(), show_bits(r.by_test, n).c_str()); }
     if (e.size != r.size) { return fmt("%s: size() is %zu, expected %zu", name, e.size, r.size); }
-    if (e.all != r.all) { return fmt("%s: all() is %s, std::bitset says %s (value %s)", name, e.all ? "true" : "false", r.all ? "true" : "false", show_bits(r.by_test).c_str()); }
-    if (e.any != r.any) { return fmt("%s: any() is %s, std::bitset says %s (value %s)", name, e.any ? "true" : "false", r.any ? "true" : "false", show_bits(r.by_test).c_str()); }
-    if (e.none != r.none) { return fmt("%s: none() is %s, std::bitset says %s (value %s)", name, e.none ? "true" : "false", r.none ? "true" : "false", show_bits(r.by_test).c_str()); }
+    if (e.all != r.all) { return fmt("%s: all() is %s, std::bitset says %s (value %s)", name, e.all ? "true" : "false", r.all ? "true" : "false", show_bits(r.by_test, n).c_str()); }
+    if (e.any != r.any) { return fmt("%s: any() is %s, std::bitset says %s (value %s)", name, e.any ? "true" : "false", r.any ? "true" : "false", show_bits(r.by_test, n).c_str()); }
+    if (e.none != r.none) { return fmt("%s: none() is %s, std::bitset says %s (value %s)", name, e.none ? "true" : "false", r.none ? "true" : "false", show_bits(r.by_test, n).c_str()); }
     if (!e.eq_self || e.ne_self) { return fmt("%s: does not compare equal to itself", name); }
-    if (!e.eq_fresh || !e.fresh_eq) { return fmt("%s: does not compare equal to a bitset holding the same bits set one by one (value %s): padding bits influence operator==", name, show_bits(r.by_test).c_str()); }
+    if (!e.eq_fresh || !e.fresh_eq) { return fmt("%s: does not compare equal to a bitset holding the same bits set one by one (value %s): padding bits influence operator==", name, show_bits(r.by_test, n).c_str()); }
     // (basic_bitset has neither the integer conversions nor to_string: e.has_conv / e.has_str are false for it)
     if (e.has_conv && e.ul != r.ul) { return fmt("%s: to_ulong() is %lu, std::bitset says %lu", name, e.ul, r.ul); }
     if (e.has_conv && e.ull != r.ull) { return fmt("%s: to_ullong() is %llu, std::bitset says %llu", name, e.ull, r.ull); }
@@ -152,57 +106,6 @@ auto judge(char const* name, Snap const& e, Snap const& r) -> std::string
         if (e.str_roomy != r.str_roomy) { return fmt("%s: to_string<N+3>() is \"%s\", std::bitset says \"%s\"", name, e.str_roomy.c_str(), r.str_roomy.c_str()); }
     }
     return "";
-}
-
-template <typename A>
-auto snap_etl(typename A::T& x, Ref const& m, bool full) -> Snap
-{
-    using T     = typename A::T;
-    T const& cx = x;
-    Snap s;
-    s.full = full;
-    for (std::size_t i = 0; i < N; ++i) { s.by_test.put(i, A::test(cx, i)); }
-    s.count = cx.count();
-    if (!full) { return s; }
-    for (std::size_t i = 0; i < N; ++i) {
-        s.by_index.put(i, cx[i]);
-        s.by_proxy.put(i, static_cast<bool>(x[i]));
-    }
-    s.size    = cx.size();
-    s.all     = cx.all();
-    s.any     = cx.any();
-    s.none    = cx.none();
-    s.eq_self = cx == cx;
-    s.ne_self = cx != cx;
-    {
-        T fresh{};
-        for (std::size_t i = 0; i < N; ++i) {
-            if (m.test(i)) { A::set(fresh, i, true); }
-        }
-        s.eq_fresh = cx == fresh;
-        s.fresh_eq = fresh == cx;
-    }
-    if constexpr (A::full_api) {
-        if constexpr (N <= 64) {
-            s.has_conv = true;
-            s.ul       = cx.to_ulong();
-            s.ull      = cx.to_ullong();
-        }
-        s.has_str = true;
-        {
-            auto t = cx.template to_string<N>();
-            s.str.assign(t.data(), t.size());
-        }
-        {
-            auto t = cx.template to_string<N>('.', '#');
-            s.str_custom.assign(t.data(), t.size());
-        }
-        {
-            auto t = cx.template to_string<N + 3>();
-            s.str_roomy.assign(t.data(), t.size());
-        }
-    }
-    return s;
 }
 
 // ------------------------------------------------------------------ ops
@@ -224,36 +127,36 @@ auto ull_value(RawOp const& op) -> unsigned long long
     default: return splitmix((static_cast<std::uint64_t>(op.a) << 32) | op.b);
     }
 }
+auto has_high_bits(unsigned long long val, std::size_t n) -> bool { return n < 64 && (val >> n) != 0; }
 
 // text of a string-constructor op
 struct Text {
-    unsigned overload{0};   // 0: all five arguments, 1: (str), 2: (str,pos), 3: (str,pos,n) — used where the defaults apply
-    std::string s;          // the whole text handed over
-    std::size_t pos{0};     // starting offset
-    std::size_t n{0};       // count argument
+    unsigned overload{0}; // 0: all five arguments, 1: (str), 2: (str,pos), 3: (str,pos,n) — used where the defaults apply
+    std::string s;        // the whole text handed over
+    std::size_t pos{0};   // starting offset
+    std::size_t n{0};     // count argument
     bool n_is_npos{true};
     char zero{'0'}, one{'1'};
-    std::size_t used{0};    // characters that take part: min(n, size - pos)  (<= N by construction)
 };
-auto pick_len(std::uint32_t raw) -> std::size_t
+auto pick_len(std::uint32_t raw, std::size_t width) -> std::size_t
 {
     switch (raw % 8U) {
     case 0: return 0;
     case 1: return 1;
-    case 2: return N;
-    case 3: return N - 1;
-    default: return (raw / 8U) % (N + 1);
+    case 2: return width;
+    case 3: return width - 1;
+    default: return (raw / 8U) % (width + 1);
     }
 }
-auto make_text(RawOp const& op, bool cstr) -> Text
+auto make_text(RawOp const& op, bool cstr, std::size_t width) -> Text
 {
     Text t;
-    auto const len    = pick_len(op.b);
-    t.overload        = (op.b % 8U < 4U) ? (op.b / 8U) % 4U : (op.b / (8U * static_cast<std::uint32_t>(N + 1))) % 4U;
+    auto const len    = pick_len(op.b, width);
+    t.overload        = (op.b % 8U < 4U) ? (op.b / 8U) % 4U : (op.b / (8U * static_cast<std::uint32_t>(width + 1))) % 4U;
     auto const modes  = op.c >> 1;
-    auto const posm   = cstr ? 0U : modes % 4U;        // the char const* overload has no pos
-    auto const nmode  = (modes / 4U) % 3U;             // 0: n = npos, text ends with the digits; 1: n = len, two more characters follow; 2: n = len/2 (only the first half is used)
-    auto const chars  = (modes / 12U) % 3U;            // 0: '0'/'1'  1: 'a'/'b'  2: swapped '1'/'0'
+    auto const posm   = cstr ? 0U : modes % 4U; // the char const* overload has no pos
+    auto const nmode  = (modes / 4U) % 3U;      // 0: n = npos, text ends with the digits; 1: n = len, two more characters follow; 2: n = len/2 (only the first half is used)
+    auto const chars  = (modes / 12U) % 3U;     // 0: '0'/'1'  1: 'a'/'b'  2: swapped '1'/'0'
     bool const hashed = ((modes / 36U) % 2U) != 0 || len > 32;
     t.zero            = chars == 0 ? '0' : chars == 1 ? 'a' : '1';
     t.one             = chars == 0 ? '1' : chars == 1 ? 'b' : '0';
@@ -266,414 +169,527 @@ auto make_text(RawOp const& op, bool cstr) -> Text
     if (nmode == 0) {
         t.n_is_npos = true;
         t.n         = std::string::npos;
-        t.used      = len;
     } else if (nmode == 1) {
         t.n_is_npos = false;
         t.n         = len;
-        t.used      = len;
-        if (!cstr) { t.s += "yz"; } // beyond n: never looked at (for char const* std copies exactly n characters, so nothing may follow... it may, but keep it simple)
+        if (!cstr) { t.s += "yz"; } // beyond n: never looked at
     } else {
         t.n_is_npos = false;
         t.n         = len / 2;
-        t.used      = len / 2;
     }
     return t;
 }
 
 struct Flags {
-    bool whole{false}, single{false}, observed_after_both{false}, strings{false}, proxy{false}, binary{false}, high_ull{false};
+    bool whole{false}, single{false}, both{false}, strings{false}, proxy{false}, binary{false}, high_ull{false};
 };
-
-template <typename A>
-struct Runner {
-    using T = typename A::T;
-
-    static auto check(char const* name, T& x, Ref const& m, bool full) -> std::string { return judge(name, snap_etl<A>(x, m, full), snap_ref(m, full)); }
-
-    // check_from: ops before this index are applied without comparing (the exhaustive enumeration checks its two
-    // constructor ops in their own cases)
-    static auto run(OpsCase const& k, int stats, std::size_t check_from) -> std::string
-    {
-        std::string err;
-        Flags fl;
-        std::size_t op_index = 0;
-        struct Sandwich {
-            std::uint64_t pre{0xA5A5A5A5A5A5A5A5ULL};
-            T a{};
-            std::uint64_t mid{0x5A5A5A5A5A5A5A5AULL};
-            T b{};
-            std::uint64_t post{0xC3C3C3C3C3C3C3C3ULL};
-        } sw;
-        Ref ma, mb;
-        if (check_from == 0) {
-            err = check("default-constructed A", sw.a, ma, true);
-            if (err.empty()) { err = check("default-constructed B", sw.b, mb, true); }
-            if (!err.empty()) { return err; }
-        }
-        for (auto const& op : k.ops) {
-            bool const tb = (op.c & 1U) != 0;
-            T& x          = tb ? sw.b : sw.a;
-            T& y          = tb ? sw.a : sw.b;
-            Ref& mx       = tb ? mb : ma;
-            Ref& my       = tb ? ma : mb;
-            auto code     = op.code % NCODES;
-            if (!A::full_api && (code == CTOR_STRING || code == CTOR_CSTR)) { code = CTOR_ULL; } // basic_bitset has no string constructors
-            std::size_t const i = op.a % N;
-            std::size_t const j = op.b % N;
-            bool const v        = (op.b & 1U) != 0;
-            bool const self     = ((op.c >> 1) & 1U) != 0; // binary ops: the right-hand side is the target itself
-            if (stats > 1) { vf::count((std::string("op.") + code_names[code]).c_str()); }
-            bool touches_y = false;
-            switch (code) {
-            case SET_ALL: {
-                T& r = x.set();
-                mx.set();
-                if (&r != &x) { err = "set() did not return *this"; }
-                fl.whole = true;
-                break;
-            }
-            case RESET_ALL: {
-                T& r = x.reset();
-                mx.reset();
-                if (&r != &x) { err = "reset() did not return *this"; }
-                fl.whole = true;
-                break;
-            }
-            case FLIP_ALL: {
-                T& r = x.flip();
-                mx.flip();
-                if (&r != &x) { err = "flip() did not return *this"; }
-                fl.whole = true;
-                break;
-            }
-            case SET_POS: {
-                T& r = A::set(x, i, v);
-                mx.set(i, v);
-                if (&r != &x) { err = "set(pos,v) did not return *this"; }
-                fl.single = true;
-                break;
-            }
-            case RESET_POS: {
-                T& r = A::reset(x, i);
-                mx.reset(i);
-                if (&r != &x) { err = "reset(pos) did not return *this"; }
-                fl.single = true;
-                break;
-            }
-            case FLIP_POS: {
-                T& r = A::flip(x, i);
-                mx.flip(i);
-                if (&r != &x) { err = "flip(pos) did not return *this"; }
-                fl.single = true;
-                break;
-            }
-            case REF_ASSIGN_BOOL: {
-                bool const r = (x[i] = v);
-                mx[i]        = v;
-                if (r != v) { err = fmt("(b[%zu] = %d) converts to %d", i, v ? 1 : 0, r ? 1 : 0); }
-                fl.single = fl.proxy = true;
-                break;
-            }
-            case REF_ASSIGN_REF: {
-                bool const from_other = ((op.c >> 1) & 1U) != 0;
-                bool r                = false;
-                if (from_other) {
-                    r     = (x[i] = y[j]);
-                    mx[i] = my[j];
-                } else {
-                    r     = (x[i] = x[j]);
-                    mx[i] = mx[j];
-                }
-                if (r != mx[i]) { err = fmt("(b[%zu] = c[%zu]) converts to %d, expected %d", i, j, r ? 1 : 0, mx[i] ? 1 : 0); }
-                fl.single = fl.proxy = true;
-                break;
-            }
-            case REF_FLIP: {
-                bool const r = x[i].flip();
-                mx[i].flip();
-                if (r != mx[i]) { err = fmt("b[%zu].flip() converts to %d, expected %d", i, r ? 1 : 0, mx[i] ? 1 : 0); }
-                fl.single = fl.proxy = true;
-                break;
-            }
-            case REF_NOT: {
-                bool const r = ~x[i];
-                bool const e = ~mx[i];
-                if (r != e) { err = fmt("~b[%zu] is %d, std::bitset says %d", i, r ? 1 : 0, e ? 1 : 0); }
-                fl.proxy = true;
-                break;
-            }
-            case AND_ASSIGN: {
-                T& r = self ? (x &= x) : (x &= y);
-                if (self) { mx &= mx; } else { mx &= my; }
-                if (&r != &x) { err = "operator&= did not return *this"; }
-                fl.binary = true;
-                break;
-            }
-            case OR_ASSIGN: {
-                T& r = self ? (x |= x) : (x |= y);
-                if (self) { mx |= mx; } else { mx |= my; }
-                if (&r != &x) { err = "operator|= did not return *this"; }
-                fl.binary = true;
-                break;
-            }
-            case XOR_ASSIGN: {
-                T& r = self ? (x ^= x) : (x ^= y);
-                if (self) { mx ^= mx; } else { mx ^= my; }
-                if (&r != &x) { err = "operator^= did not return *this"; }
-                fl.binary = true;
-                break;
-            }
-            case NOT: {
-                if constexpr (A::full_api) {
-                    T const& cx = x;
-                    y           = ~cx;
-                } else { // basic_bitset has no operator~: copy + flip()
-                    T t = x;
-                    t.flip();
-                    y = t;
-                }
-                my        = ~mx;
-                touches_y = true;
-                fl.whole  = true;
-                break;
-            }
-            case AND:
-            case OR:
-            case XOR: {
-                T const& cx = x;
-                T const& cy = self ? x : y;
-                Ref const& ry = self ? mx : my;
-                T r         = code == AND ? (cx & cy) : code == OR ? (cx | cy) : (cx ^ cy);
-                Ref mr      = code == AND ? (mx & ry) : code == OR ? (mx | ry) : (mx ^ ry);
-                if (auto e = check("result of binary operator", r, mr, true); !e.empty()) { err = e; }
-                if (err.empty()) { err = check("left operand after binary operator", x, mx, false); }
-                x         = r;
-                mx        = mr;
-                fl.binary = true;
-                break;
-            }
-            case EQ: {
-                T const& cx = x;
-                T const& cy = y;
-                bool const e = mx == my;
-                if ((cx == cy) != e) { err = fmt("operator== is %s, std::bitset says %s (A %s, B %s)", (cx == cy) ? "true" : "false", e ? "true" : "false", ma.to_string().c_str(), mb.to_string().c_str()); }
-                if (err.empty() && (cx != cy) == e) { err = fmt("operator!= is %s, std::bitset says %s", (cx != cy) ? "true" : "false", !e ? "true" : "false"); }
-                fl.binary = true;
-                break;
-            }
-            case CTOR_ULL: {
-                auto const val = ull_value(op);
-                x              = T(val);
-                mx             = Ref(val);
-                fl.high_ull |= N < 64 && (val >> (N < 64 ? N : 63)) != 0;
-                break;
-            }
-            case COPY: {
-                y         = x;
-                my        = mx;
-                touches_y = true;
-                break;
-            }
-            case OBSERVE: break;
-            case CTOR_STRING: {
-                if constexpr (A::full_api) {
-                    auto const t = make_text(op, false);
-                    etl::string_view const sv(t.s.data(), t.s.size());
-                    bool const custom = t.zero != '0' || t.one != '1';
-                    if (t.n_is_npos && t.pos == 0 && !custom && t.overload == 1) {
-                        x  = T(sv);
-                        mx = Ref(t.s);
-                    } else if (t.n_is_npos && !custom && t.overload == 2) {
-                        x  = T(sv, t.pos);
-                        mx = Ref(t.s, t.pos);
-                    } else if (!custom && t.overload == 3) {
-                        x  = T(sv, t.pos, t.n_is_npos ? etl::string_view::npos : t.n);
-                        mx = Ref(t.s, t.pos, t.n);
-                    } else {
-                        x  = T(sv, t.pos, t.n_is_npos ? etl::string_view::npos : t.n, t.zero, t.one);
-                        mx = Ref(t.s, t.pos, t.n, t.zero, t.one);
-                    }
-                    fl.strings = true;
-                }
-                break;
-            }
-            case CTOR_CSTR: {
-                if constexpr (A::full_api) {
-                    auto const t      = make_text(op, true);
-                    bool const custom = t.zero != '0' || t.one != '1';
-                    if (t.n_is_npos && !custom && t.overload == 1) {
-                        x  = T(t.s.c_str());
-                        mx = Ref(t.s.c_str());
-                    } else if (!custom && t.overload >= 2) {
-                        x  = T(t.s.c_str(), t.n_is_npos ? etl::string_view::npos : t.n);
-                        mx = Ref(t.s.c_str(), t.n);
-                    } else {
-                        x  = T(t.s.c_str(), t.n_is_npos ? etl::string_view::npos : t.n, t.zero, t.one);
-                        mx = Ref(t.s.c_str(), t.n, t.zero, t.one);
-                    }
-                    fl.strings = true;
-                }
-                break;
-            }
-            default: break;
-            }
-            bool const checked = op_index++ >= check_from;
-            if (err.empty() && checked) { err = check(tb ? "B" : "A", x, mx, true); }
-            if (err.empty() && checked) { err = check(tb ? "A" : "B", y, my, touches_y); }
-            if (err.empty() && (sw.pre != 0xA5A5A5A5A5A5A5A5ULL || sw.mid != 0x5A5A5A5A5A5A5A5AULL || sw.post != 0xC3C3C3C3C3C3C3C3ULL)) { err = "canary next to the bitset was overwritten"; }
-            fl.observed_after_both |= fl.whole && fl.single;
-            if (!err.empty()) {
-                err = std::string("after ") + code_names[code] + ": " + err;
-                break;
-            }
-        }
-        bool const has_padding = (N % A::word_bits) != 0;
-        if (stats > 1) {
-            vf::label("hist.whole_set_op_and_single_bit_op", fl.observed_after_both);
-            if (A::full_api) { vf::label("hist.string_constructor (etl::bitset only)", fl.strings); }
-            vf::label("hist.proxy_reference", fl.proxy);
-            vf::label("hist.binary_operator", fl.binary);
-            if (N < 64) { vf::label("hist.ull_with_bits_at_or_above_N", fl.high_ull); }
-        }
-        bool const nt = fl.observed_after_both && has_padding;
-        if (stats == 2 && nt) { vf::nontrivial(vf::digest(k)); }
-        // exhaustive value x op cases: non-trivial = an operation that has to keep the padding clean (whole-set op, binary
-        // operator, constructor from a value with bits at or above N) on a type that has padding at this width
-        if (stats == 1 && has_padding && (fl.whole || fl.binary || fl.high_ull)) { vf::nontrivial_count(); }
-        return err;
+auto record(Flags const& fl, bool full_api, bool has_padding, std::size_t n, int stats, OpsCase const& k) -> void
+{
+    if (stats > 1) {
+        vf::label("hist.whole_set_op_and_single_bit_op", fl.both);
+        if (full_api) { vf::label("hist.string_constructor (etl::bitset only)", fl.strings); }
+        vf::label("hist.proxy_reference", fl.proxy);
+        vf::label("hist.binary_operator", fl.binary);
+        if (n < 64) { vf::label("hist.ull_with_bits_at_or_above_N", fl.high_ull); }
     }
+    if (stats == 2 && fl.both && has_padding) { vf::nontrivial(vf::digest(k)); }
+    // exhaustive value x op cases: non-trivial = an operation that has to keep the padding clean (whole-set op, binary
+    // operator, constructor from a value with bits at or above N) on a type that has padding at this width
+    if (stats == 1 && has_padding && (fl.whole || fl.binary || fl.high_ull)) { vf::nontrivial_count(); }
+}
+
+// ------------------------------------------------------------------ everything that depends on the width
+template <std::size_t N>
+struct Width {
+    using Ref = std::bitset<N>;
+
+    // uniform access to the two etl types
+    struct AdBitset {
+        using T                                = etl::bitset<N>;
+        static constexpr bool full_api         = true;
+        static constexpr std::size_t word_bits = sizeof(etl::size_t) * 8;
+        static auto set(T& t, std::size_t i, bool v) -> T& { return t.set(i, v); }
+        static auto reset(T& t, std::size_t i) -> T& { return t.reset(i); }
+        static auto flip(T& t, std::size_t i) -> T& { return t.flip(i); }
+        static auto test(T const& t, std::size_t i) -> bool { return t.test(i); }
+    };
+    template <typename W>
+    struct AdBasic {
+        using T                                = etl::basic_bitset<N, W>;
+        static constexpr bool full_api         = false;
+        static constexpr std::size_t word_bits = sizeof(W) * 8;
+        static auto set(T& t, std::size_t i, bool v) -> T& { return t.unchecked_set(i, v); }
+        static auto reset(T& t, std::size_t i) -> T& { return t.unchecked_reset(i); }
+        static auto flip(T& t, std::size_t i) -> T& { return t.unchecked_flip(i); }
+        static auto test(T const& t, std::size_t i) -> bool { return t.unchecked_test(i); }
+    };
+
+    static auto snap_ref(Ref const& m, bool full) -> Snap
+    {
+        Snap s;
+        s.n    = N;
+        s.full = full;
+        for (std::size_t i = 0; i < N; ++i) { s.by_test.put(i, m.test(i)); }
+        s.count = m.count();
+        if (!full) { return s; }
+        s.by_index = s.by_test;
+        s.by_proxy = s.by_test;
+        s.size     = m.size();
+        s.all      = m.all();
+        s.any      = m.any();
+        s.none     = m.none();
+        if constexpr (N <= 64) {
+            s.has_conv = true;
+            s.ul       = m.to_ulong();
+            s.ull      = m.to_ullong();
+        }
+        s.has_str    = true;
+        s.str        = m.to_string();
+        s.str_custom = m.to_string('.', '#');
+        s.str_roomy  = s.str;
+        return s;
+    }
+
+    template <typename A>
+    static auto snap_etl(typename A::T& x, Ref const& m, bool full) -> Snap
+    {
+        using T     = typename A::T;
+        T const& cx = x;
+        Snap s;
+        s.n    = N;
+        s.full = full;
+        for (std::size_t i = 0; i < N; ++i) { s.by_test.put(i, A::test(cx, i)); }
+        s.count = cx.count();
+        if (!full) { return s; }
+        for (std::size_t i = 0; i < N; ++i) {
+            s.by_index.put(i, cx[i]);
+            s.by_proxy.put(i, static_cast<bool>(x[i]));
+        }
+        s.size    = cx.size();
+        s.all     = cx.all();
+        s.any     = cx.any();
+        s.none    = cx.none();
+        s.eq_self = cx == cx;
+        s.ne_self = cx != cx;
+        {
+            T fresh{};
+            for (std::size_t i = 0; i < N; ++i) {
+                if (m.test(i)) { A::set(fresh, i, true); }
+            }
+            s.eq_fresh = cx == fresh;
+            s.fresh_eq = fresh == cx;
+        }
+        if constexpr (A::full_api) {
+            if constexpr (N <= 64) {
+                s.has_conv = true;
+                s.ul       = cx.to_ulong();
+                s.ull      = cx.to_ullong();
+            }
+            s.has_str = true;
+            {
+                auto t = cx.template to_string<N>();
+                s.str.assign(t.data(), t.size());
+            }
+            {
+                auto t = cx.template to_string<N>('.', '#');
+                s.str_custom.assign(t.data(), t.size());
+            }
+            {
+                auto t = cx.template to_string<N + 3>();
+                s.str_roomy.assign(t.data(), t.size());
+            }
+        }
+        return s;
+    }
+
+    template <typename A>
+    struct Runner {
+        using T = typename A::T;
+
+        static auto check(char const* name, T& x, Ref const& m, bool full) -> std::string { return judge(name, snap_etl<A>(x, m, full), snap_ref(m, full)); }
+
+        // check_from: ops before this index are applied without comparing (the exhaustive enumeration checks its
+        // constructor ops in their own cases)
+        static auto run(OpsCase const& k, int stats, std::size_t check_from) -> std::string
+        {
+            std::string err;
+            Flags fl;
+            std::size_t op_index = 0;
+            struct Sandwich {
+                std::uint64_t pre{0xA5A5A5A5A5A5A5A5ULL};
+                T a{};
+                std::uint64_t mid{0x5A5A5A5A5A5A5A5AULL};
+                T b{};
+                std::uint64_t post{0xC3C3C3C3C3C3C3C3ULL};
+            } sw;
+            Ref ma, mb;
+            if (check_from == 0) {
+                err = check("default-constructed A", sw.a, ma, true);
+                if (err.empty()) { err = check("default-constructed B", sw.b, mb, true); }
+                if (!err.empty()) { return err; }
+            }
+            for (auto const& op : k.ops) {
+                bool const tb = (op.c & 1U) != 0;
+                T& x          = tb ? sw.b : sw.a;
+                T& y          = tb ? sw.a : sw.b;
+                Ref& mx       = tb ? mb : ma;
+                Ref& my       = tb ? ma : mb;
+                auto code     = op.code % NCODES;
+                if (!A::full_api && (code == CTOR_STRING || code == CTOR_CSTR)) { code = CTOR_ULL; } // basic_bitset has no string constructors
+                std::size_t const i = op.a % N;
+                std::size_t const j = op.b % N;
+                bool const v        = (op.b & 1U) != 0;
+                bool const self     = ((op.c >> 1) & 1U) != 0; // binary ops: the right-hand side is the target itself
+                if (stats > 1) { vf::count((std::string("op.") + code_names[code]).c_str()); }
+                bool touches_y = false;
+                switch (code) {
+                case SET_ALL: {
+                    T& r = x.set();
+                    mx.set();
+                    if (&r != &x) { err = "set() did not return *this"; }
+                    fl.whole = true;
+                    break;
+                }
+                case RESET_ALL: {
+                    T& r = x.reset();
+                    mx.reset();
+                    if (&r != &x) { err = "reset() did not return *this"; }
+                    fl.whole = true;
+                    break;
+                }
+                case FLIP_ALL: {
+                    T& r = x.flip();
+                    mx.flip();
+                    if (&r != &x) { err = "flip() did not return *this"; }
+                    fl.whole = true;
+                    break;
+                }
+                case SET_POS: {
+                    T& r = A::set(x, i, v);
+                    mx.set(i, v);
+                    if (&r != &x) { err = "set(pos,v) did not return *this"; }
+                    fl.single = true;
+                    break;
+                }
+                case RESET_POS: {
+                    T& r = A::reset(x, i);
+                    mx.reset(i);
+                    if (&r != &x) { err = "reset(pos) did not return *this"; }
+                    fl.single = true;
+                    break;
+                }
+                case FLIP_POS: {
+                    T& r = A::flip(x, i);
+                    mx.flip(i);
+                    if (&r != &x) { err = "flip(pos) did not return *this"; }
+                    fl.single = true;
+                    break;
+                }
+                case REF_ASSIGN_BOOL: {
+                    bool const r = (x[i] = v);
+                    mx[i]        = v;
+                    if (r != v) { err = fmt("(b[%zu] = %d) converts to %d", i, v ? 1 : 0, r ? 1 : 0); }
+                    fl.single = fl.proxy = true;
+                    break;
+                }
+                case REF_ASSIGN_REF: {
+                    bool r = false;
+                    if (self) { // (the flag means "from the other bitset" here)
+                        r     = (x[i] = y[j]);
+                        mx[i] = my[j];
+                    } else {
+                        r     = (x[i] = x[j]);
+                        mx[i] = mx[j];
+                    }
+                    if (r != mx[i]) { err = fmt("(b[%zu] = c[%zu]) converts to %d, expected %d", i, j, r ? 1 : 0, mx[i] ? 1 : 0); }
+                    fl.single = fl.proxy = true;
+                    break;
+                }
+                case REF_FLIP: {
+                    bool const r = x[i].flip();
+                    mx[i].flip();
+                    if (r != mx[i]) { err = fmt("b[%zu].flip() converts to %d, expected %d", i, r ? 1 : 0, mx[i] ? 1 : 0); }
+                    fl.single = fl.proxy = true;
+                    break;
+                }
+                case REF_NOT: {
+                    bool const r = ~x[i];
+                    bool const e = ~mx[i];
+                    if (r != e) { err = fmt("~b[%zu] is %d, std::bitset says %d", i, r ? 1 : 0, e ? 1 : 0); }
+                    fl.proxy = true;
+                    break;
+                }
+                case AND_ASSIGN: {
+                    T& r = self ? (x &= x) : (x &= y);
+                    if (self) {
+                        mx &= mx;
+                    } else {
+                        mx &= my;
+                    }
+                    if (&r != &x) { err = "operator&= did not return *this"; }
+                    fl.binary = true;
+                    break;
+                }
+                case OR_ASSIGN: {
+                    T& r = self ? (x |= x) : (x |= y);
+                    if (self) {
+                        mx |= mx;
+                    } else {
+                        mx |= my;
+                    }
+                    if (&r != &x) { err = "operator|= did not return *this"; }
+                    fl.binary = true;
+                    break;
+                }
+                case XOR_ASSIGN: {
+                    T& r = self ? (x ^= x) : (x ^= y);
+                    if (self) {
+                        mx ^= mx;
+                    } else {
+                        mx ^= my;
+                    }
+                    if (&r != &x) { err = "operator^= did not return *this"; }
+                    fl.binary = true;
+                    break;
+                }
+                case NOT: {
+                    if constexpr (A::full_api) {
+                        T const& cx = x;
+                        y           = ~cx;
+                    } else { // basic_bitset has no operator~: copy + flip()
+                        T t = x;
+                        t.flip();
+                        y = t;
+                    }
+                    my        = ~mx;
+                    touches_y = true;
+                    fl.whole  = true;
+                    break;
+                }
+                case AND:
+                case OR:
+                case XOR: {
+                    T const& cx   = x;
+                    T const& cy   = self ? x : y;
+                    Ref const& ry = self ? mx : my;
+                    T r           = code == AND ? (cx & cy) : code == OR ? (cx | cy) : (cx ^ cy);
+                    Ref mr        = code == AND ? (mx & ry) : code == OR ? (mx | ry) : (mx ^ ry);
+                    if (auto e = check("result of binary operator", r, mr, true); !e.empty()) { err = e; }
+                    if (err.empty()) { err = check("left operand after binary operator", x, mx, false); }
+                    x         = r;
+                    mx        = mr;
+                    fl.binary = true;
+                    break;
+                }
+                case EQ: {
+                    T const& cx  = x;
+                    T const& cy  = y;
+                    bool const e = mx == my;
+                    if ((cx == cy) != e) { err = fmt("operator== is %s, std::bitset says %s (A %s, B %s)", (cx == cy) ? "true" : "false", e ? "true" : "false", ma.to_string().c_str(), mb.to_string().c_str()); }
+                    if (err.empty() && (cx != cy) == e) { err = fmt("operator!= is %s, std::bitset says %s", (cx != cy) ? "true" : "false", !e ? "true" : "false"); }
+                    fl.binary = true;
+                    break;
+                }
+                case CTOR_ULL: {
+                    auto const val = ull_value(op);
+                    x              = T(val);
+                    mx             = Ref(val);
+                    fl.high_ull |= has_high_bits(val, N);
+                    break;
+                }
+                case COPY: {
+                    y         = x;
+                    my        = mx;
+                    touches_y = true;
+                    break;
+                }
+                case OBSERVE: break;
+                case CTOR_STRING: {
+                    if constexpr (A::full_api) {
+                        auto const t = make_text(op, false, N);
+                        etl::string_view const sv(t.s.data(), t.s.size());
+                        bool const custom = t.zero != '0' || t.one != '1';
+                        if (t.n_is_npos && t.pos == 0 && !custom && t.overload == 1) {
+                            x  = T(sv);
+                            mx = Ref(t.s);
+                        } else if (t.n_is_npos && !custom && t.overload == 2) {
+                            x  = T(sv, t.pos);
+                            mx = Ref(t.s, t.pos);
+                        } else if (!custom && t.overload == 3) {
+                            x  = T(sv, t.pos, t.n_is_npos ? etl::string_view::npos : t.n);
+                            mx = Ref(t.s, t.pos, t.n);
+                        } else {
+                            x  = T(sv, t.pos, t.n_is_npos ? etl::string_view::npos : t.n, t.zero, t.one);
+                            mx = Ref(t.s, t.pos, t.n, t.zero, t.one);
+                        }
+                        fl.strings = true;
+                    }
+                    break;
+                }
+                case CTOR_CSTR: {
+                    if constexpr (A::full_api) {
+                        auto const t      = make_text(op, true, N);
+                        bool const custom = t.zero != '0' || t.one != '1';
+                        if (t.n_is_npos && !custom && t.overload == 1) {
+                            x  = T(t.s.c_str());
+                            mx = Ref(t.s.c_str());
+                        } else if (!custom && t.overload >= 2) {
+                            x  = T(t.s.c_str(), t.n_is_npos ? etl::string_view::npos : t.n);
+                            mx = Ref(t.s.c_str(), t.n);
+                        } else {
+                            x  = T(t.s.c_str(), t.n_is_npos ? etl::string_view::npos : t.n, t.zero, t.one);
+                            mx = Ref(t.s.c_str(), t.n, t.zero, t.one);
+                        }
+                        fl.strings = true;
+                    }
+                    break;
+                }
+                default: break;
+                }
+                bool const checked = op_index++ >= check_from;
+                if (err.empty() && checked) { err = check(tb ? "B" : "A", x, mx, true); }
+                if (err.empty() && checked) { err = check(tb ? "A" : "B", y, my, touches_y); }
+                if (err.empty() && (sw.pre != 0xA5A5A5A5A5A5A5A5ULL || sw.mid != 0x5A5A5A5A5A5A5A5AULL || sw.post != 0xC3C3C3C3C3C3C3C3ULL)) { err = "canary next to the bitset was overwritten"; }
+                fl.both |= fl.whole && fl.single;
+                if (!err.empty()) {
+                    err = std::string("after ") + code_names[code] + ": " + err;
+                    break;
+                }
+            }
+            record(fl, A::full_api, (N % A::word_bits) != 0, N, stats, k);
+            return err;
+        }
+    };
 };
 
 struct Config {
-    char const* name;
+    std::string name;
     std::string (*run)(OpsCase const&, int, std::size_t);
     bool full_api;
+    std::size_t width;
 };
-#define STR2(x) #x
-#define STR(x) STR2(x)
-Config const configs[] = {
-    {"bitset<" STR(C17_WIDTH) ">", &Runner<AdBitset>::run, true},
-    {"basic_bitset<" STR(C17_WIDTH) ",uint8_t>", &Runner<AdBasic<std::uint8_t>>::run, false},
-    {"basic_bitset<" STR(C17_WIDTH) ",uint16_t>", &Runner<AdBasic<std::uint16_t>>::run, false},
-    {"basic_bitset<" STR(C17_WIDTH) ",uint32_t>", &Runner<AdBasic<std::uint32_t>>::run, false},
-    {"basic_bitset<" STR(C17_WIDTH) ",uint64_t>", &Runner<AdBasic<std::uint64_t>>::run, false},
-};
-constexpr std::uint32_t nconfigs = sizeof(configs) / sizeof(configs[0]);
+
+template <std::size_t N>
+auto add_width(std::vector<Config>& out) -> void
+{
+    using W      = Width<N>;
+    auto const n = std::to_string(N);
+    out.push_back(Config{"bitset<" + n + ">", &W::template Runner<typename W::AdBitset>::run, true, N});
+    out.push_back(Config{"basic_bitset<" + n + ",uint8_t>", &W::template Runner<typename W::template AdBasic<std::uint8_t>>::run, false, N});
+    out.push_back(Config{"basic_bitset<" + n + ",uint16_t>", &W::template Runner<typename W::template AdBasic<std::uint16_t>>::run, false, N});
+    out.push_back(Config{"basic_bitset<" + n + ",uint32_t>", &W::template Runner<typename W::template AdBasic<std::uint32_t>>::run, false, N});
+    out.push_back(Config{"basic_bitset<" + n + ",uint64_t>", &W::template Runner<typename W::template AdBasic<std::uint64_t>>::run, false, N});
+}
+template <std::size_t... Ns>
+auto make_configs() -> std::vector<Config>
+{
+    std::vector<Config> out;
+    (add_width<Ns>(out), ...);
+    return out;
+}
+auto configs() -> std::vector<Config> const&
+{
+    static auto const c = make_configs<C17_WIDTHS>();
+    return c;
+}
 
 auto run_case(OpsCase const& k, int stats, std::size_t check_from = 0) -> std::string
 {
-    auto const& cfg = configs[k.cfg % nconfigs];
+    auto const& cfg = configs()[k.cfg % configs().size()];
     auto d          = cfg.run(k, stats, check_from);
-    return d.empty() ? d : std::string(cfg.name) + ": " + d;
+    return d.empty() ? d : cfg.name + ": " + d;
 }
 
 auto describe(OpsCase const& k) -> std::string
 {
-    auto const& cfg = configs[k.cfg % nconfigs];
-    std::string s   = std::string(cfg.name) + " :";
+    auto const& cfg = configs()[k.cfg % configs().size()];
+    std::string s   = cfg.name + " :";
     for (auto const& o : k.ops) { s += " " + std::string(code_names[o.code % NCODES]) + "[" + std::to_string(o.a) + "," + std::to_string(o.b) + "," + std::to_string(o.c) + "]"; }
     return s;
 }
 
 // ------------------------------------------------------------------ E2: N <= 9, every value x every single op
-void enum_values_x_ops(vf::Ctx& c)
+void enum_values_x_ops(vf::Ctx& c, std::uint32_t ci, std::uint64_t& n)
 {
-    if constexpr (N <= 9) {
-        constexpr std::uint32_t NS = N <= 9 ? static_cast<std::uint32_t>(N) : 1U; // keeps the shifts below well-formed in the TUs of the wide widths
-        std::uint64_t n          = 0;
-        std::uint32_t const nval = 1U << NS;
-        auto one                 = [&](std::uint32_t ci, std::vector<RawOp> const& prefix, RawOp const& op) -> bool {
-            if (!c.mine(n++)) { return true; }
-            OpsCase k;
-            k.cfg = ci;
-            k.ops = prefix;
-            k.ops.push_back(op);
-            vf::Flight<OpsCase> fl("value_x_op", k);
-            vf::eval("value_x_op");
-            auto d = run_case(k, 1, prefix.size());
-            if (!d.empty()) {
-                vf::mismatch("value_x_op", k, d);
-                return false;
-            }
-            return true;
-        };
-        for (std::uint32_t ci = 0; ci < nconfigs; ++ci) {
-            // constructors first: every value (also with every pattern of bits at and above N), every string
-            for (std::uint32_t v = 0; v < nval; ++v) {
-                if (!one(ci, {}, RawOp{CTOR_ULL, 0, v, 0})) { return; }
-                for (std::uint32_t hi = 1; hi < 8; ++hi) { // garbage above bit N-1 must be ignored
-                    if (!one(ci, {}, RawOp{CTOR_ULL, 0, v | (hi << NS), 0})) { return; }
-                }
-                if (!one(ci, {}, RawOp{CTOR_ULL, 2, v, 0})) { return; }
-            }
-            if (!one(ci, {}, RawOp{CTOR_ULL, 1, 0, 0})) { return; }
-            if (configs[ci].full_api) {
-                // b selects the length (pick_len: default branch (b/8)%(N+1)), a the digits (literal), c>>1 the modes
-                for (std::uint32_t len = 0; len <= NS; ++len) {
-                    for (std::uint32_t ovl = 0; ovl < 4; ++ovl) {
-                        std::uint32_t const b = 4U + 8U * len + 8U * (NS + 1U) * ovl;
-                        for (std::uint32_t bits = 0; bits < (1U << len); ++bits) {
-                            for (std::uint32_t modes = 0; modes < 36; ++modes) { // pos 0..3 x n-mode 0..2 x characters 0..2
-                                if (ovl != 0 && modes >= 12) { continue; }       // the short overloads only exist for the default characters
-                                if (!one(ci, {}, RawOp{CTOR_STRING, bits, b, modes << 1})) { return; }
-                                if (modes % 4U == 0 && !one(ci, {}, RawOp{CTOR_CSTR, bits, b, modes << 1})) { return; }
-                            }
-                        }
-                    }
-                }
-            }
-            // unary ops and proxy ops on every value
-            for (std::uint32_t v = 0; v < nval; ++v) {
-                std::vector<RawOp> const prefix{RawOp{CTOR_ULL, 0, v, 0}};
-                for (std::uint32_t code : {SET_ALL, RESET_ALL, FLIP_ALL, NOT, OBSERVE, COPY}) {
-                    if (!one(ci, prefix, RawOp{code, 0, 0, 0})) { return; }
-                }
-                for (std::uint32_t i = 0; i < NS; ++i) {
-                    for (std::uint32_t code : {SET_POS, REF_ASSIGN_BOOL}) {
-                        if (!one(ci, prefix, RawOp{code, i, 0, 0})) { return; }
-                        if (!one(ci, prefix, RawOp{code, i, 1, 0})) { return; }
-                    }
-                    for (std::uint32_t code : {RESET_POS, FLIP_POS, REF_FLIP, REF_NOT}) {
-                        if (!one(ci, prefix, RawOp{code, i, 0, 0})) { return; }
-                    }
-                    for (std::uint32_t j = 0; j < NS; ++j) {
-                        if (!one(ci, prefix, RawOp{REF_ASSIGN_REF, i, j, 0})) { return; }
-                    }
-                }
-            }
-            // binary ops on every pair of values (the right-hand side B is built first)
-            for (std::uint32_t v = 0; v < nval; ++v) {
-                for (std::uint32_t w = 0; w < nval; ++w) {
-                    std::vector<RawOp> const prefix{RawOp{CTOR_ULL, 0, v, 0}, RawOp{CTOR_ULL, 0, w, 1}};
-                    for (std::uint32_t code : {AND_ASSIGN, OR_ASSIGN, XOR_ASSIGN, AND, OR, XOR, EQ}) {
-                        if (!one(ci, prefix, RawOp{code, 0, 0, 0})) { return; }
-                    }
-                }
-                // self-aliased forms and cross-object proxy assignment (depends on one bit of B only)
-                std::vector<RawOp> const p1{RawOp{CTOR_ULL, 0, v, 0}};
-                for (std::uint32_t code : {AND_ASSIGN, OR_ASSIGN, XOR_ASSIGN, AND, OR, XOR}) {
-                    if (!one(ci, p1, RawOp{code, 0, 0, 2})) { return; }
-                }
-                for (std::uint32_t w : {0U, nval - 1}) {
-                    std::vector<RawOp> const prefix{RawOp{CTOR_ULL, 0, v, 0}, RawOp{CTOR_ULL, 0, w, 1}};
-                    for (std::uint32_t i = 0; i < NS; ++i) {
-                        if (!one(ci, prefix, RawOp{REF_ASSIGN_REF, i, (i + 1) % NS, 2})) { return; }
+    auto const& cfg        = configs()[ci];
+    auto const NS          = static_cast<std::uint32_t>(cfg.width);
+    std::uint32_t const nv = 1U << NS;
+    bool ok                = true;
+    auto one               = [&](std::vector<RawOp> const& prefix, RawOp const& op) -> bool {
+        if (!ok) { return false; }
+        if (!c.mine(n++)) { return true; }
+        OpsCase k;
+        k.cfg = ci;
+        k.ops = prefix;
+        k.ops.push_back(op);
+        vf::Flight<OpsCase> fl("value_x_op", k);
+        vf::eval("value_x_op");
+        auto d = run_case(k, 1, prefix.size());
+        if (!d.empty()) {
+            ok = false;
+            vf::mismatch("value_x_op", k, d);
+        }
+        return ok;
+    };
+    // constructors first: every value (also with every pattern of bits at and above N), every string
+    for (std::uint32_t v = 0; v < nv && ok; ++v) {
+        one({}, RawOp{CTOR_ULL, 0, v, 0});
+        for (std::uint32_t hi = 1; hi < 8; ++hi) { one({}, RawOp{CTOR_ULL, 0, v | (hi << NS), 0}); } // garbage above bit N-1 must be ignored
+        one({}, RawOp{CTOR_ULL, 2, v, 0});
+    }
+    one({}, RawOp{CTOR_ULL, 1, 0, 0});
+    if (cfg.full_api) {
+        // b selects the length (pick_len default branch: (b/8)%(N+1)) and the overload arity, a the digits (literal), c>>1 the modes
+        for (std::uint32_t len = 0; len <= NS && ok; ++len) {
+            for (std::uint32_t ovl = 0; ovl < 4; ++ovl) {
+                std::uint32_t const b = 4U + 8U * len + 8U * (NS + 1U) * ovl;
+                for (std::uint32_t bits = 0; bits < (1U << len) && ok; ++bits) {
+                    for (std::uint32_t modes = 0; modes < 36; ++modes) { // pos 0..3 x n-mode 0..2 x characters 0..2
+                        if (ovl != 0 && modes >= 12) { continue; }       // the short overloads only exist for the default characters
+                        one({}, RawOp{CTOR_STRING, bits, b, modes << 1});
+                        if (modes % 4U == 0) { one({}, RawOp{CTOR_CSTR, bits, b, modes << 1}); }
                     }
                 }
             }
         }
-    } else {
-        (void)c;
+    }
+    // unary ops and proxy ops on every value
+    for (std::uint32_t v = 0; v < nv && ok; ++v) {
+        std::vector<RawOp> const prefix{RawOp{CTOR_ULL, 0, v, 0}};
+        for (std::uint32_t code : {SET_ALL, RESET_ALL, FLIP_ALL, NOT, OBSERVE, COPY}) { one(prefix, RawOp{code, 0, 0, 0}); }
+        for (std::uint32_t i = 0; i < NS; ++i) {
+            for (std::uint32_t code : {SET_POS, REF_ASSIGN_BOOL}) {
+                one(prefix, RawOp{code, i, 0, 0});
+                one(prefix, RawOp{code, i, 1, 0});
+            }
+            for (std::uint32_t code : {RESET_POS, FLIP_POS, REF_FLIP, REF_NOT}) { one(prefix, RawOp{code, i, 0, 0}); }
+            for (std::uint32_t j = 0; j < NS; ++j) { one(prefix, RawOp{REF_ASSIGN_REF, i, j, 0}); }
+        }
+    }
+    // binary ops on every pair of values (the right-hand side B is built first)
+    for (std::uint32_t v = 0; v < nv && ok; ++v) {
+        for (std::uint32_t w = 0; w < nv && ok; ++w) {
+            std::vector<RawOp> const prefix{RawOp{CTOR_ULL, 0, v, 0}, RawOp{CTOR_ULL, 0, w, 1}};
+            for (std::uint32_t code : {AND_ASSIGN, OR_ASSIGN, XOR_ASSIGN, AND, OR, XOR, EQ}) { one(prefix, RawOp{code, 0, 0, 0}); }
+        }
+        // self-aliased forms and cross-object proxy assignment (depends on one bit of B only)
+        std::vector<RawOp> const p1{RawOp{CTOR_ULL, 0, v, 0}};
+        for (std::uint32_t code : {AND_ASSIGN, OR_ASSIGN, XOR_ASSIGN, AND, OR, XOR}) { one(p1, RawOp{code, 0, 0, 2}); }
+        for (std::uint32_t w : {0U, nv - 1}) {
+            std::vector<RawOp> const prefix{RawOp{CTOR_ULL, 0, v, 0}, RawOp{CTOR_ULL, 0, w, 1}};
+            for (std::uint32_t i = 0; i < NS; ++i) { one(prefix, RawOp{REF_ASSIGN_REF, i, (i + 1) % NS, 2}); }
+        }
     }
 }
 
-// a few fixed boundary histories for every width (cheap; run by shard 0)
+// a few fixed boundary histories for every type (cheap; run by shard 0)
 void fixed_cases(vf::Ctx& c)
 {
     if (c.shard != 0) { return; }
-    for (std::uint32_t ci = 0; ci < nconfigs; ++ci) {
+    for (std::uint32_t ci = 0; ci < configs().size(); ++ci) {
+        auto const top = static_cast<std::uint32_t>(configs()[ci].width - 1);
         std::vector<std::vector<RawOp>> hs{
-            {{SET_ALL, 0, 0, 0}, {RESET_POS, static_cast<std::uint32_t>(N - 1), 0, 0}, {FLIP_ALL, 0, 0, 0}, {FLIP_ALL, 0, 0, 0}, {SET_POS, static_cast<std::uint32_t>(N - 1), 1, 0}},
+            {{SET_ALL, 0, 0, 0}, {RESET_POS, top, 0, 0}, {FLIP_ALL, 0, 0, 0}, {FLIP_ALL, 0, 0, 0}, {SET_POS, top, 1, 0}},
             {{FLIP_ALL, 0, 0, 0}, {NOT, 0, 0, 0}, {EQ, 0, 0, 0}, {XOR_ASSIGN, 0, 0, 0}, {FLIP_ALL, 0, 0, 1}, {OR_ASSIGN, 0, 0, 0}},
             {{CTOR_ULL, 1, 0, 0}, {CTOR_ULL, 3, 12345, 1}, {AND, 0, 0, 0}, {NOT, 0, 0, 0}, {XOR, 0, 0, 1}},
             {{CTOR_STRING, 0xFFFFFFFFU, 2, 0}, {CTOR_CSTR, 0x55555555U, 2, 1}, {EQ, 0, 0, 0}, {CTOR_STRING, 1, 1, 0}, {CTOR_STRING, 1, 3, 2 << 1}},
@@ -695,18 +711,26 @@ void fixed_cases(vf::Ctx& c)
 
 } // namespace
 
+// Keep the resident set small: ASan's default 256 MB quarantine of freed blocks is far more than these harnesses need
+// (every case frees a few dozen small blocks); ASAN_OPTIONS set by bin/check still take precedence for the keys it sets.
+extern "C" char const* __asan_default_options() { return "quarantine_size_mb=16:thread_local_quarantine_size_kb=256"; }
+
 void vf_run(vf::Ctx& c)
 {
-    enum_values_x_ops(c);
+    std::uint64_t n = 0;
+    for (std::uint32_t ci = 0; ci < configs().size(); ++ci) {
+        if (configs()[ci].width <= 9) { enum_values_x_ops(c, ci, n); }
+    }
     fixed_cases(c);
-    // E1: random histories of <= 40 ops over two bitsets, every type of this width (each shard has its own seed)
-    int const per_cfg = c.thorough() ? (N <= 33 ? 200000 : 100000) : (N <= 33 ? 4000 : 2000);
-    for (std::uint32_t ci = 0; ci < nconfigs; ++ci) {
-        auto gen = rc::gen::map(vf::gen_history(1, NCODES, 40), [ci](OpsCase k) {
+    // E1: random histories of <= 40 ops over two bitsets, every type of every width of this unit (each shard has its own seed)
+    for (std::uint32_t ci = 0; ci < configs().size(); ++ci) {
+        auto const& cfg   = configs()[ci];
+        int const per_cfg = c.thorough() ? (cfg.width <= 33 ? 100000 : 50000) : (cfg.width <= 33 ? 2000 : 1000);
+        auto gen          = rc::gen::map(vf::gen_history(1, NCODES, 40), [ci](OpsCase k) {
             k.cfg = ci;
             return k;
         });
-        std::string sub = std::string("histories/") + configs[ci].name;
+        std::string sub = "histories/" + cfg.name;
         vf::rc_check<OpsCase>(sub.c_str(), gen, per_cfg, 100, [&](OpsCase const& k) {
             vf::eval("histories");
             auto d = run_case(k, 2);
